@@ -150,7 +150,8 @@ def _member(sel, cur, k: int, cq: str, cid: str, idx: int, b: Built, defined: li
     return [_fun(nm, f"{cq}.{nm}", "self", [])], [f"def {nm}(self) -> int: ..."]
 
 
-def decode_module(sel, cur, mod: str = "m") -> Built:
+def decode_module(sel, cur, mod: str = "m", swap: bool = False) -> Built:
+    """swap=True: the same top-level definitions in reversed order (names are tied to the definition, not the place)."""
     b = Built()
     MQ, MID = f"pkg.{mod}", f"pkg/{mod}"
     defs, lines = [], ["from enum import Enum", "from typing import overload", ""]
@@ -160,7 +161,11 @@ def decode_module(sel, cur, mod: str = "m") -> Built:
         lines = ['"""Module doc."""'] + lines
     imports = [shim.import_from("enum", [("Enum", None)]), shim.import_from("typing", [("overload", None)])]
     ntop = rd(sel, cur, MAX_TOP + 1)
+    items = []
+    head_defs, head_lines = defs, lines
     for i in range(ntop):
+        defs, lines = [], []
+        items.append((defs, lines))
         k = rd(sel, cur, N_TOP)
         if k == 0:
             nm = f"f{i}"
@@ -209,6 +214,10 @@ def decode_module(sel, cur, mod: str = "m") -> Built:
             lines += ["@deco", f"def {nm}() -> int: ...", ""]
             b.features.add("decorated-function")
             b.expect.append({"kind": "function", "id": f"{MID}/{nm}", "owner": MID, "name": nm})
+    defs, lines = head_defs, head_lines
+    for d_, l_ in (reversed(items) if swap else items):
+        defs += d_
+        lines += l_
     if "decorated-function" in b.features:
         lines = lines[:3 + (1 if doc else 0)] + ["def deco(f):", "    return f", ""] + lines[3 + (1 if doc else 0):]
         b.expect.append({"kind": "function", "id": "pkg/m/deco", "owner": MID, "name": "deco"})
